@@ -246,6 +246,8 @@ pub fn alphabet(name: &str) -> Vec<&'static str> {
         "cluster" => vec!["\r\n", "e\u{0301}", "🇩🇪", "👨\u{200D}👩", "a\u{0308}", "x"],
         // two characters that share their first code point (a code-point-wise common prefix cuts through a cluster)
         "share" => vec![" ", "e\u{0301}", "e", "\u{0301}", "e\u{0301}\u{0302}", "x"],
+        // two different whitespace characters (never substituted for one another under spaces_insert_delete_only)
+        "ws2" => vec![" ", "\t", "a", "\u{00A0}", "b", "\n"],
         // tab as whitespace, ideographic space is in "wide"
         "tab" => vec!["\t", "x", "y", "z", "u", "v"],
         // whitespace functions: space, tab, NBSP (2-byte ws), ideographic space (3-byte ws), a, b, ZWSP (non-ws), e+acute
